@@ -1,0 +1,23 @@
+package templater
+
+import "fmt"
+
+const (
+	partURL    = "url"
+	partHeader = "header"
+	partBody   = "body"
+)
+
+// templateKey identifies one template of a scenario step in the templaters' caches. It is a struct, not a joined
+// string, so that a header named "url" or "body", or names containing the separator, cannot collide with another
+// template of the same or of another step.
+type templateKey struct {
+	scenario string
+	step     string
+	part     string
+	key      string
+}
+
+func (k templateKey) String() string {
+	return fmt.Sprintf("%s_%s_%s_%s", k.scenario, k.step, k.part, k.key)
+}
